@@ -17,18 +17,25 @@ namespace SqlObjVerif.Fail
 def Quiet (sch : Schema) (s : St) (op : Op) (inj : Option Inj) : Prop :=
   (step sch s op inj).1.changes = s.changes
 
-/-- the failures for which the current code is failure-atomic.  Excluded, each with a witness below:
-    a lazy `set()` whose non-column keyword raises; a database error at the SELECT that reads a
-    created row back; for inheritable create and `destroySelf` everything but failures before the
-    first effective micro-step (see also `C06_inheritable_create_cleaned`). -/
+/-- the failures for which the current code is failure-atomic: any failure before the first
+    effective micro-step (`Quiet`), and per operation kind:
+    attribute assignment, `syncUpdate()`: every failure;
+    `set()`: every failure, unless a keyword is a ForeignKey given by object (written by its own
+    UPDATE before the others — witness below) or, on a lazy object, a property setter of the
+    application raises (application code; an unknown keyword is refused before anything changes);
+    create: every failure but a database error at the SELECT that reads the new row back.
+    For inheritable create and `destroySelf` only `Quiet` (witnesses below; see also
+    `C06_cleanup_undoes_parent_insert`). -/
 def Atomic (sch : Schema) (s : St) (op : Op) (inj : Option Inj) : Prop :=
+  Quiet sch s op inj ∨
   match op with
   | .setattr _ _ _ _ => True
-  | .set c _ _ ex => (clsOf sch c).lazy = true → extrasErr ex = none
+  | .set c _ _ ex => noFk ex = true ∧ ((clsOf sch c).lazy = true → hasUnknown ex = true ∨ extrasErr ex = none)
   | .sync _ _ => True
   | .create _ _ _ _ => hit inj 2 = none
-  | .createChild _ _ _ => Quiet sch s op inj
-  | .destroy _ _ => Quiet sch s op inj
+  | .createChild _ _ _ => False
+  | .createChain _ => False
+  | .destroy _ _ => False
 
 instance (sch : Schema) (s : St) (op : Op) (inj : Option Inj) : Decidable (Atomic sch s op inj) := by
   unfold Atomic Quiet; cases op <;> infer_instance
@@ -50,15 +57,19 @@ theorem C06_frame (sch : Schema) (s s' : St) (op : Op) (inj : Option Inj) (r : O
     flags, and the registered ids exactly as they were. -/
 theorem C06_failed_op_is_noop_partial (sch : Schema) (s s' : St) (op : Op) (inj : Option Inj) (e : Err)
     (hA : Atomic sch s op inj) (h : step sch s op inj = (s', some e)) : s'.core = s.core := by
-  cases op with
-  | setattr c id col v =>
-    exact setProg_noop sch inj c id [(col, v)] [] { s with n := 0, log := [] } s' e (fun _ => rfl) h
-  | set c id kw ex => exact setProg_noop sch inj c id kw ex { s with n := 0, log := [] } s' e hA h
-  | sync c id => exact syncProg_noop sch inj c id { s with n := 0, log := [] } s' e h
-  | create c missing kw ex =>
-    exact createProg_noop sch inj c none missing kw ex { s with n := 0, log := [] } s' e hA h
-  | createChild c pkw ckw => exact C06_frame sch s s' _ inj _ h (by simpa [Atomic, Quiet, h] using hA)
-  | destroy c id => exact C06_frame sch s s' _ inj _ h (by simpa [Atomic, Quiet, h] using hA)
+  cases hA with
+  | inl hq => exact C06_frame sch s s' op inj _ h (by simpa [Quiet, h] using hq)
+  | inr hA =>
+    cases op with
+    | setattr c id col v =>
+      exact setProg_noop sch inj c id [(col, v)] [] { s with n := 0, log := [] } s' e rfl (fun _ => .inr rfl) h
+    | set c id kw ex => exact setProg_noop sch inj c id kw ex { s with n := 0, log := [] } s' e hA.1 hA.2 h
+    | sync c id => exact syncProg_noop sch inj c id { s with n := 0, log := [] } s' e h
+    | create c missing kw ex =>
+      exact createProg_noop sch inj c none missing kw ex { s with n := 0, log := [] } s' e hA h
+    | createChild c pkw ckw => exact hA.elim
+    | createChain levels => exact hA.elim
+    | destroy c id => exact hA.elim
 
 /-- the property's wording: db unchanged, every held instance unchanged and still equal to its row,
     no registration added or lost -/
@@ -163,12 +174,12 @@ theorem C06_destroy_db_error_mid_cascade_full_FALSE :
     (step W1.sch W1.s (.destroy 0 1) (some ⟨3, .operational⟩)).1.core ≠ W1.s.core := by
   decide
 
-/-- the victim's own DELETE fails: nothing was deleted, but the instance is left marked obsolete -/
-theorem C06_destroy_delete_fails_obsolete_full_FALSE :
+/-- (repaired by a587e1a) the victim's own DELETE fails: nothing was deleted and the instance is
+    not marked obsolete any more — the failure is `Quiet`, hence covered by the partial theorem -/
+theorem C06_destroy_delete_fails_is_noop :
+    Atomic [{ cols := [{}] }] (mkSt [[⟨1, [some 7]⟩]] [inst 0 1 [some 7]]) (.destroy 0 1) (some ⟨1, .operational⟩) ∧
     (step [{ cols := [{}] }] (mkSt [[⟨1, [some 7]⟩]] [inst 0 1 [some 7]]) (.destroy 0 1) (some ⟨1, .operational⟩)).2
-      = some .operational ∧
-    (step [{ cols := [{}] }] (mkSt [[⟨1, [some 7]⟩]] [inst 0 1 [some 7]]) (.destroy 0 1) (some ⟨1, .operational⟩)).1.core.insts
-      = [⟨0, 1, [some 7], [], false, true⟩] := by
+      = some .operational := by
   decide
 
 /-- create: the row is inserted and the instance registered, then the SELECT reading it back fails -/
@@ -179,12 +190,35 @@ theorem C06_create_db_error_after_insert_full_FALSE :
       = [[⟨1, [some 5]⟩]] := by
   decide
 
-/-- lazy `set(col=9, nosuch=…)`: TypeError after the column value was cached and made pending -/
-theorem C06_lazy_set_extra_full_FALSE :
+/-- (repaired by bf075e4) lazy `set(col=9, nosuch=…)`: the unknown keyword is refused before the
+    column value is cached or made pending — covered by the partial theorem -/
+theorem C06_lazy_set_unknown_keyword_is_noop :
+    Atomic [{ cols := [{}], lazy := true }] (mkSt [[⟨1, [some 7]⟩]] [inst 0 1 [some 7]])
+        (.set 0 1 [(0, .ok (some 9))] [.unknown]) none ∧
     (step [{ cols := [{}], lazy := true }] (mkSt [[⟨1, [some 7]⟩]] [inst 0 1 [some 7]])
-        (.set 0 1 [(0, .ok (some 9))] [.unknown]) none).2 = some .typeError ∧
+        (.set 0 1 [(0, .ok (some 9))] [.unknown]) none).2 = some .typeError := by
+  decide
+
+/-- outside the property (application code raises): a property setter of the application that
+    raises inside a lazy `set()` runs after the columns were cached; this is why `Atomic` asks for
+    `extrasErr ex = none` there -/
+theorem C06_lazy_set_raising_user_setter_not_atomic :
     (step [{ cols := [{}], lazy := true }] (mkSt [[⟨1, [some 7]⟩]] [inst 0 1 [some 7]])
-        (.set 0 1 [(0, .ok (some 9))] [.unknown]) none).1.core.insts = [⟨0, 1, [some 9], [(0, some 9)], false, false⟩] := by
+        (.set 0 1 [(0, .ok (some 9))] [.badProp]) none).2 = some .attrError ∧
+    (step [{ cols := [{}], lazy := true }] (mkSt [[⟨1, [some 7]⟩]] [inst 0 1 [some 7]])
+        (.set 0 1 [(0, .ok (some 9))] [.badProp]) none).1.core.insts = [⟨0, 1, [some 9], [(0, some 9)], false, false⟩] := by
+  decide
+
+/-- eager `set(fk=<object>, w=<duplicate>)`: the ForeignKey given by object is written by its own
+    UPDATE before the UPDATE of the plain columns is rejected: partial multi-column update -/
+theorem C06_set_fk_by_object_full_FALSE :
+    (step [{ cols := [{}, { unique := true }] }]
+        (mkSt [[⟨1, [some 1, some 1]⟩, ⟨2, [some 1, some 2]⟩]] [inst 0 1 [some 1, some 1]])
+        (.set 0 1 [(1, .ok (some 2))] [.fk 0 (some 2)]) none).2 = some .duplicate ∧
+    (step [{ cols := [{}, { unique := true }] }]
+        (mkSt [[⟨1, [some 1, some 1]⟩, ⟨2, [some 1, some 2]⟩]] [inst 0 1 [some 1, some 1]])
+        (.set 0 1 [(1, .ok (some 2))] [.fk 0 (some 2)]) none).1.core.tabs
+      = [[⟨1, [some 2, some 1]⟩, ⟨2, [some 1, some 2]⟩]] := by
   decide
 
 /-- inheritable pair `Par` (a, childName) / `Chi` (b, childName) -/
@@ -192,15 +226,36 @@ def W5.sch : Schema := [{ cols := [{ unique := true }, {}] }, { cols := [{ uniqu
 def W5.op : Op := .createChild 1 [(0, .ok (some 1)), (1, .ok (some 1))] [(0, .ok (some 1)), (1, .ok none)]
 
 /-- statement 2 (the parent's read-back) fails: orphan parent row;
-    statement 4 (the child's read-back) fails: the clean-up deletes the parent row, the child row stays;
-    a BaseException at statement 3 (the child's INSERT): `except Exception` does not clean up -/
+    statement 4 (the child's read-back) fails: the clean-up deletes the parent row, the child row stays -/
 theorem C06_inheritable_create_full_FALSE :
     (step W5.sch (mkSt [[], []] []) W5.op (some ⟨2, .operational⟩)).1.core.tabs = [[⟨1, [some 1, some 1]⟩], []] ∧
     (step W5.sch (mkSt [[], []] []) W5.op (some ⟨4, .operational⟩)).1.core.tabs = [[], [⟨1, [some 1, none]⟩]] ∧
-    (step W5.sch (mkSt [[], []] []) W5.op (some ⟨3, .interrupt⟩)).1.core.tabs = [[⟨1, [some 1, some 1]⟩], []] ∧
     (step W5.sch (mkSt [[], []] []) W5.op (some ⟨2, .operational⟩)).2 = some .operational ∧
-    (step W5.sch (mkSt [[], []] []) W5.op (some ⟨4, .operational⟩)).2 = some .operational ∧
-    (step W5.sch (mkSt [[], []] []) W5.op (some ⟨3, .interrupt⟩)).2 = some .interrupt := by
+    (step W5.sch (mkSt [[], []] []) W5.op (some ⟨4, .operational⟩)).2 = some .operational := by
+  decide
+
+/-- (repaired by 0470de1) a BaseException at statement 3 (the child's INSERT) is cleaned up like
+    any other exception: the whole state is restored -/
+theorem C06_inheritable_create_interrupt_cleaned :
+    (step W5.sch (mkSt [[], []] []) W5.op (some ⟨3, .interrupt⟩)).2 = some .interrupt ∧
+    (step W5.sch (mkSt [[], []] []) W5.op (some ⟨3, .interrupt⟩)).1.core = (mkSt [[], []] []).core := by
+  decide
+
+/-- three levels (`Par` / `Chi` / `Gra`): a duplicate key at the leaf's INSERT removes the rows of
+    both ancestors again -/
+theorem C06_three_level_create_leaf_failure_cleaned :
+    (step (W5.sch ++ [{ cols := [{ unique := true }], parent := some 1 }])
+        (mkSt [[⟨1, [some 1, some 1]⟩], [⟨1, [some 1, some 2]⟩], [⟨1, [some 5]⟩]]
+          [inst 0 1 [some 1, some 1], inst 1 1 [some 1, some 2], inst 2 1 [some 5]])
+        (.createChain [(2, [(0, .ok (some 5))]), (1, [(0, .ok (some 2)), (1, .ok (some 2))]),
+                       (0, [(0, .ok (some 2)), (1, .ok (some 1))])]) none).2 = some .duplicate ∧
+    (step (W5.sch ++ [{ cols := [{ unique := true }], parent := some 1 }])
+        (mkSt [[⟨1, [some 1, some 1]⟩], [⟨1, [some 1, some 2]⟩], [⟨1, [some 5]⟩]]
+          [inst 0 1 [some 1, some 1], inst 1 1 [some 1, some 2], inst 2 1 [some 5]])
+        (.createChain [(2, [(0, .ok (some 5))]), (1, [(0, .ok (some 2)), (1, .ok (some 2))]),
+                       (0, [(0, .ok (some 2)), (1, .ok (some 1))])]) none).1.core
+      = (mkSt [[⟨1, [some 1, some 1]⟩], [⟨1, [some 1, some 2]⟩], [⟨1, [some 5]⟩]]
+          [inst 0 1 [some 1, some 1], inst 1 1 [some 1, some 2], inst 2 1 [some 5]]).core := by
   decide
 
 /-- `Chi#1` is referenced by `DC#1` with `cascade=False`: the inheritable `destroySelf` has deleted
